@@ -32,7 +32,7 @@ pub fn run(ctx: &Ctx) -> Report {
         "Err is always admissible (the property says 'either rejects or ...')".into(),
         "path->disclosure map from the harness locator (cross-checked by C05)".into(),
     ];
-    for c in ["subset", "permutation", "edit-salt", "edit-name", "edit-value", "reserialize-whitespace", "reserialize-escapes", "repad", "truncate", "forged", "sibling", "duplicate", "garbage"] {
+    for c in ["subset", "permutation", "edit-salt", "edit-name", "edit-value", "reserialize-whitespace", "reserialize-escapes", "repad", "wrap", "truncate", "forged", "sibling", "duplicate", "garbage"] {
         rep.floor(&format!("class.{c}"), 50);
     }
     rep.floor("outcome.exact-view", 5_000);
@@ -263,6 +263,10 @@ fn one_case(ctx: &Ctx, case: u64, l: &mut Local) {
         }
         variants.push(("repad", format!("{d}=")));
         variants.push(("repad", format!("{d}==")));
+        // the genuine string wrapped in blanks / line breaks / invisible characters (pasted tokens)
+        for (pre, post) in [(" ", ""), ("", " "), ("\n", ""), ("", "\r\n"), ("\t", "\t"), ("", "\u{a0}"), ("\u{feff}", ""), ("", "\u{200b}"), ("", "\u{0}")] {
+            variants.push(("wrap", format!("{pre}{d}{post}")));
+        }
         variants.push(("truncate", d[..d.len() - 1].to_string()));
         if d.len() > 8 {
             variants.push(("truncate", d[..d.len() - 4].to_string()));
